@@ -622,13 +622,14 @@ def set_name_cases(P, res):
         raise AnalysisError('anchor vanished: DispatchingShell.do_set')
     SHELL = Sym('SHELL')
     ok = True
-    for ncomp in (1, 2, 3):
+    # (the value given may be the empty string - `.set nullvalue ""` - which is a value, not a missing one)
+    for ncomp, words in ((1, ['NAME']), (2, ['NAME', 'VALUE']), (2, ['NAME', '']), (3, ['NAME', 'VALUE', 'EXTRA'])):
         for valid in (True, False):
-            def on_call(fname, fval, recv, args, kwargs, ex, node, _n=ncomp):
+            def on_call(fname, fval, recv, args, kwargs, ex, node, _w=words):
                 f = str(fname)
                 if f == 'shlex.split':
                     ex.events.append(('split', args, kwargs))
-                    return SList(['NAME', 'VALUE', 'EXTRA'][:_n])
+                    return SList(list(_w))
                 if f in ('print',):
                     ex.events.append(('print', args))
                     return None
@@ -664,7 +665,14 @@ def set_name_cases(P, res):
                     want = {1: 'getstr', 2: 'setstr'}.get(ncomp)
                     if want and want not in reflect:
                         ok = False
-                        res.fail(ds.fq, f'settings:arity:{ncomp}', f'.set NAME{" VALUE" if ncomp == 2 else ""} must {"show" if ncomp == 1 else "change"} the setting', loc(ds))
+                        res.fail(ds.fq, f'settings:arity:{ncomp}' + (':empty' if words[-1] == '' else ''),
+                                 f'.set NAME{" VALUE" if ncomp == 2 else ""} must {"show" if ncomp == 1 else "change"} the setting'
+                                 + (' - also when the value given is the empty string (`.set nullvalue ""`)' if words[-1] == '' else ''), loc(ds))
+                    sets = [e for e in p.events if e[0] == 'call' and str(e[1]).split('.')[-1] == 'setstr']
+                    if ncomp == 2 and sets and tuple(sets[0][2]) != tuple(words):
+                        ok = False
+                        res.fail(ds.fq, 'settings:arity:2:value', f'.set NAME VALUE must store the value given; it stores '
+                                 f'{[show(a) for a in sets[0][2]]} for the words {words}', loc(ds))
                     if ncomp == 3 and (reflect or not errors):
                         ok = False
                         res.fail(ds.fq, 'settings:arity:3', '.set with too many arguments must report an error and change nothing', loc(ds))
@@ -883,57 +891,129 @@ def helper_target_cases(P, res):
                     if having and p.value.args[2] != N + (0 if found is not None else 1):
                         ok = False
                         res.fail(construct, 'hidden:having-index', f'{label}: HAVING refers to target index {p.value.args[2]}', loc(fi))
-    # several ORDER BY keys: each key is resolved on its own - a name or position first, a new expression second, and the other way round
-    fi_o = _method(P, '_compile_order_by')
-    for first_kind in ('name-then-expression', 'expression-then-name', 'position-then-expression'):
-        tg, attrs = _targets(N, 0)
-        S1, S2 = Sym('SPEC1'), Sym('SPEC2')
-        NAMECOL = Sym('COLUMN_NAMED_b')
-        attrs[(NAMECOL, 'name')] = 'b'
-        ref = 2 if first_kind.startswith('position') else NAMECOL          # target 2 (position 2, or the name b): index 1
-        a_, b_ = (ref, EXPR_AST) if not first_kind.startswith('expression') else (EXPR_AST, ref)
-        attrs[(S1, 'column')], attrs[(S2, 'column')] = a_, b_
-        attrs[(S1, 'ordering')], attrs[(S2, 'ordering')] = Sym('ORDERING1'), Sym('ORDERING2')
-        env = {'self': SELF, fi_o.params[1]: SList([S1, S2]), fi_o.params[2]: SList(tg)}
-        for extra in fi_o.params[3:]:
+    # several keys: each key is resolved on its own - a name or position first, a new expression second, the other way round, and
+    # two new expressions (the second comes after the first); a name is looked up among the output names whatever the table has
+    EXPR_AST2, CEXPR2 = Sym('EXPR_AST2'), Sym('C_EXPR2')
+    for clause, meth in (('ORDER BY', '_compile_order_by'), ('GROUP BY', '_compile_group_by')):
+        fi_o = _method(P, meth)
+        for first_kind in ('name-then-expression', 'expression-then-name', 'position-then-expression', 'expression-then-expression'):
+            tg, attrs = _targets(N, 0)
+            S1, S2 = Sym('SPEC1'), Sym('SPEC2')
+            NAMECOL = Sym('COLUMN_NAMED_b')
+            attrs[(NAMECOL, 'name')] = 'b'
+            ref = 2 if first_kind.startswith('position') else NAMECOL          # target 2 (position 2, or the name b): index 1
+            a_, b_ = (ref, EXPR_AST) if not first_kind.startswith('expression') else (EXPR_AST, ref)
+            if first_kind == 'expression-then-expression':
+                a_, b_ = EXPR_AST, EXPR_AST2
+            if clause == 'ORDER BY':
+                attrs[(S1, 'column')], attrs[(S2, 'column')] = a_, b_
+                attrs[(S1, 'ordering')], attrs[(S2, 'ordering')] = Sym('ORDERING1'), Sym('ORDERING2')
+                env = {'self': SELF, fi_o.params[1]: SList([S1, S2]), fi_o.params[2]: SList(tg)}
+            else:
+                GB = Sym('GROUP_BY')
+                attrs[(GB, 'columns')] = SList([a_, b_])
+                attrs[(GB, 'having')] = None
+                env = {'self': SELF, fi_o.params[1]: GB, fi_o.params[2]: SList(tg)}
+            for extra in fi_o.params[3:]:
+                env[extra] = T('attr', (Sym('STATEMENT'), f'option_{extra}'))
+
+            def on_isinstance_m(v, c, ex, _nc=NAMECOL):
+                cn = gname(c).split('.')[-1]
+                if cn == 'int':
+                    return type(v) is int
+                if cn == 'Column':
+                    return v == _nc
+                return False
+
+            def on_attr_m(base, attr, ex, _attrs=attrs):
+                return _attrs.get((base, attr), NotImplemented)
+
+            def on_call_m(fname, fval, recv, args, kwargs, ex, node):
+                f = str(fname).split('.')[-1]
+                if f == '_compile':
+                    return CEXPR2 if args and args[0] == EXPR_AST2 else CEXPR
+                if f == 'is_aggregate':
+                    return False
+                if f == '_check_aggregates':
+                    return None
+                if f == 'issubclass':
+                    return True
+                if f == 'index' and isinstance(recv, SList) and len(args) == 1 and args[0] in (CEXPR, CEXPR2) and args[0] not in recv.items:
+                    raise Raise('ValueError', ())
+                if f == 'EvalTarget':
+                    return T('new', ('EvalTarget', args))
+                return NotImplemented
+            want_idx = {'name-then-expression': [1, N], 'position-then-expression': [1, N], 'expression-then-name': [N, 1],
+                        'expression-then-expression': [N, N + 1]}[first_kind]
+            n_new = 2 if first_kind == 'expression-then-expression' else 1
+            for p in Engine(P, on_attr=on_attr_m, on_isinstance=on_isinstance_m, on_call=on_call_m).paths(fi_o, env):
+                tup = p.value if p.outcome == 'return' and isinstance(p.value, T) and p.value.op == 'tuple' else None
+                spec = tup.args[1] if tup is not None and len(tup.args) == (2 if clause == 'ORDER BY' else 3) else None
+                got = [x.args[0] if isinstance(x, T) and x.op == 'tuple' else x for x in spec.items] if isinstance(spec, SList) and not spec.opaque_tail else None
+                if clause == 'ORDER BY':
+                    ords = [x.args[1] if isinstance(x, T) and x.op == 'tuple' else None for x in spec.items] if got is not None else None
+                    good = got == want_idx and ords == [Sym('ORDERING1'), Sym('ORDERING2')]
+                else:
+                    ords = []
+                    good = got == want_idx
+                if good and not helpers_ok(tup.args[0], n_new):
+                    good = False
+                    got = f'{got} with the new targets {show(tup.args[0])[:100]}'
+                if not good:
+                    ok = False
+                    res.fail(f'{fi_o.fq}:new-targets', 'hidden:multi-key', f'{clause} with two keys ({first_kind}): the keys must resolve to the target indexes '
+                             f'{want_idx}' + (' with their own directions' if clause == 'ORDER BY' else '') + f', each key on its own, a name to the output of '
+                             f'that name and {n_new} new invisible target(s) after the {N} existing ones; got {got}'
+                             + (f' with {[show(o) for o in (ords or [])]}' if clause == 'ORDER BY' else '') + f' ({p.outcome})', loc(fi_o))
+    # a name that two targets carry (SELECT account AS x, year AS x ... ORDER BY x) is still a reference to a target: it resolves to
+    # one of them, without a new target and without an error
+    for clause, meth in (('ORDER BY', '_compile_order_by'), ('GROUP BY', '_compile_group_by')):
+        fi_d = _method(P, meth)
+        tg, attrs = _targets(N, 0)          # names a, b, a
+        DUP = Sym('COLUMN_NAMED_a')
+        attrs[(DUP, 'name')] = 'a'
+        if clause == 'ORDER BY':
+            S1 = Sym('SPEC1')
+            attrs[(S1, 'column')], attrs[(S1, 'ordering')] = DUP, Sym('ORDERING1')
+            env = {'self': SELF, fi_d.params[1]: SList([S1]), fi_d.params[2]: SList(tg)}
+        else:
+            GB = Sym('GROUP_BY')
+            attrs[(GB, 'columns')], attrs[(GB, 'having')] = SList([DUP]), None
+            env = {'self': SELF, fi_d.params[1]: GB, fi_d.params[2]: SList(tg)}
+        for extra in fi_d.params[3:]:
             env[extra] = T('attr', (Sym('STATEMENT'), f'option_{extra}'))
 
-        def on_isinstance_m(v, c, ex):
+        def on_isinstance_d(v, c, ex, _d=DUP):
             cn = gname(c).split('.')[-1]
-            if cn == 'int':
-                return type(v) is int
-            if cn == 'Column':
-                return v == NAMECOL
-            return False
+            return type(v) is int if cn == 'int' else v == _d if cn == 'Column' else False
 
-        def on_attr_m(base, attr, ex):
-            return attrs.get((base, attr), NotImplemented)
+        def on_attr_d(base, attr, ex, _attrs=attrs):
+            return _attrs.get((base, attr), NotImplemented)
 
-        def on_call_m(fname, fval, recv, args, kwargs, ex, node):
+        def on_call_d(fname, fval, recv, args, kwargs, ex, node):
             f = str(fname).split('.')[-1]
             if f == '_compile':
                 return CEXPR
             if f == 'is_aggregate':
                 return False
-            if f == '_check_aggregates':
+            if f in ('_check_aggregates',):
                 return None
-            if f == 'index' and isinstance(recv, SList) and args == (CEXPR,) and CEXPR not in recv.items:
-                raise Raise('ValueError', ())
+            if f == 'issubclass':
+                return True
             if f == 'EvalTarget':
                 return T('new', ('EvalTarget', args))
             return NotImplemented
-        want_idx = [1, N] if not first_kind.startswith('expression') else [N, 1]
-        for p in Engine(P, on_attr=on_attr_m, on_isinstance=on_isinstance_m, on_call=on_call_m).paths(fi_o, env):
-            spec = p.value.args[1] if p.outcome == 'return' and isinstance(p.value, T) and p.value.op == 'tuple' and len(p.value.args) == 2 else None
+        for p in Engine(P, on_attr=on_attr_d, on_isinstance=on_isinstance_d, on_call=on_call_d).paths(fi_d, env):
+            tup = p.value if p.outcome == 'return' and isinstance(p.value, T) and p.value.op == 'tuple' else None
+            spec = tup.args[1] if tup is not None and len(tup.args) >= 2 else None
             got = [x.args[0] if isinstance(x, T) and x.op == 'tuple' else x for x in spec.items] if isinstance(spec, SList) and not spec.opaque_tail else None
-            ords = [x.args[1] if isinstance(x, T) and x.op == 'tuple' else None for x in spec.items] if got is not None else None
-            if got != want_idx or ords != [Sym('ORDERING1'), Sym('ORDERING2')]:
+            if tup is None or got is None or len(got) != 1 or got[0] not in (0, 2) or not helpers_ok(tup.args[0], 0):
                 ok = False
-                res.fail(f'{fi_o.fq}:new-targets', 'hidden:multi-key', f'ORDER BY with two keys ({first_kind}): the keys must resolve to the target indexes '
-                         f'{want_idx} with their own directions, each key on its own; got {got} with {[show(o) for o in (ords or [])]} '
-                         f'({p.outcome})', loc(fi_o))
+                res.fail(f'{fi_d.fq}:new-targets', 'hidden:duplicate-name', f'{clause} by a name that two targets carry (targets a, b, a; key a) must '
+                         f'resolve to one of the targets of that name, without a new target; got '
+                         f'{got if tup is not None else p.outcome + " " + (p.value[0] if p.outcome == "raise" and p.value else "")}', loc(fi_d))
     if ok:
-        res.ok({'sites': ['_compile_group_by', '_compile_order_by'], 'helper_targets': 'invisible (name None), appended, referred to by index', 'cases': 9})
+        res.ok({'sites': ['_compile_group_by', '_compile_order_by'], 'helper_targets': 'invisible (name None), appended, referred to by index', 'cases': 14})
 
 
 # ----------------------------------------------------------------------
@@ -1431,8 +1511,15 @@ def fold_cases(P, res):
 def select_target_cases(P, res):
     """Every SELECT target is compiled from its expression, named by get_target_name(target) and marked aggregate or not."""
     fi = _method(P, '_compile_targets')
-    TG1, TG2 = Sym('AST_TARGET1'), Sym('AST_TARGET2')
-    CE = {TG1: Sym('C_EXPR1'), TG2: Sym('C_EXPR2')}
+    TG1, TG2, TG3 = Sym('AST_TARGET1'), Sym('AST_TARGET2'), Sym('AST_TARGET3')
+    # (compiled nodes as terms of undecided equality: a bare symbol equals only itself)
+    CE = {TG1: T('attr', (Sym('COMPILED'), 'C_EXPR1')), TG2: T('attr', (Sym('COMPILED'), 'C_EXPR2')), TG3: T('attr', (Sym('COMPILED'), 'C_EXPR3'))}
+    # the third target repeats the first in another spelling: the statement nodes compare equal, and so do the compiled
+    # expressions, yet it is a target of its own, with its own name (its own source text) and its own evaluator node
+    SAME = [{TG1, TG3}, {CE[TG1], CE[TG3]}]
+
+    def equal(x, y):
+        return x == y or any({x, y} == grp for grp in SAME)
 
     def on_call(fn, fv, rc, a, k, ex, nd):
         f = str(fn).split('.')[-1]
@@ -1449,22 +1536,42 @@ def select_target_cases(P, res):
             return None
         if f == 'EvalTarget':
             return T('new', ('EvalTarget', a, k))
+        if f == 'index' and isinstance(rc, SList) and len(a) == 1 and not rc.opaque_tail:
+            for i, x in enumerate(rc.items):
+                if equal(x, a[0]):
+                    return i
+            raise Raise('ValueError', ())
         return NotImplemented
+
+    def on_attr(base, attr, ex):
+        if isinstance(base, T) and base.op == 'new' and base.args[0] == 'EvalTarget' and attr in ('c_expr', 'name', 'is_aggregate'):
+            i = ('c_expr', 'name', 'is_aggregate').index(attr)
+            kw = dict(base.args[2]) if len(base.args) > 2 else {}
+            return base.args[1][i] if i < len(base.args[1]) else kw.get(attr, NotImplemented)
+        return NotImplemented
+
+    def oracle(term, ex):
+        if isinstance(term, T) and term.op == 'cmp' and term.args[0] in ('==', '!=') and len(term.args) == 3:
+            e = equal(term.args[1], term.args[2])
+            return e if term.args[0] == '==' else not e
+        return None
 
     def on_isinstance(v, c, ex):
         return False
     ok = True
-    for p in Engine(P, on_call=on_call, on_isinstance=on_isinstance).paths(fi, {'self': SELF, fi.params[1]: SList([TG1, TG2])}):
+    for tgs in ((TG1, TG2), (TG1, TG2, TG3)):
+      for p in Engine(P, on_call=on_call, on_attr=on_attr, on_isinstance=on_isinstance, oracle=oracle).paths(fi, {'self': SELF, fi.params[1]: SList(list(tgs))}):
         v = p.value
         items = v.items if isinstance(v, SList) and not v.opaque_tail else None
-        want = [T('new', ('EvalTarget', (CE[t], T('call', ('get_target_name', (t,), ())), t == TG2), ())) for t in (TG1, TG2)]
+        want = [T('new', ('EvalTarget', (CE[t], T('call', ('get_target_name', (t,), ())), t == TG2), ())) for t in tgs]
         if p.outcome != 'return' or items != want:
             ok = False
             got = ', '.join(show(x)[:70] for x in items) if items is not None else show(v)[:120]
-            detail = 'hidden:name-source' if items and len(items) == 2 and all(isinstance(x, T) and x.op == 'new' and x.args[1][:1] == (CE[t],)
-                                                                                for x, t in zip(items, (TG1, TG2))) else 'hidden:targets'
+            detail = 'hidden:name-source' if items and len(items) == len(tgs) and all(isinstance(x, T) and x.op == 'new' and x.args[1][:1] == (CE[t],)
+                                                                                for x, t in zip(items, tgs)) else 'hidden:targets'
             res.fail(f'{fi.fq}:EvalTarget', detail, 'every SELECT target must become EvalTarget(its compiled expression, '
-                     f'get_target_name(target), whether it is an aggregate), in order; got [{got}]', loc(fi))
+                     f'get_target_name(target), whether it is an aggregate), in order - also a target that repeats an earlier one in '
+                     f'another spelling is compiled to a node of its own and named by its own text; got [{got}]', loc(fi))
     if ok:
         res.ok({'site': fi.fq, 'name': 'get_target_name(target)', 'order': 'as written'})
 
